@@ -10,10 +10,10 @@ import Ctrmml.Model.MdsCodec
 namespace Ctrmml.Fragment
 open Ctrmml Ctrmml.Tree Ctrmml.Expand Ctrmml.Mds Tables
 
-/-- no pitch envelope on, notes (and, in drum mode, routine numbers) inside the MDSDRV range -/
+/-- notes (and, in drum mode, routine numbers) inside the MDSDRV range (pitch envelopes are inside the
+fragment since round 5) -/
 def simpleEvB (e : Event) : Bool :=
-  (e.type != ev_NOTE || (decide (0 ≤ e.param) && decide (e.param < 94))) &&
-  (e.type != ev_PITCH_ENVELOPE || e.param == 0)
+  (e.type != ev_NOTE || (decide (0 ≤ e.param) && decide (e.param < 94)))
 
 /-- on/off times as the MML front end sets them -/
 def timedB (e : Event) : Bool :=
